@@ -22,7 +22,7 @@ NPTS = 25
 
 
 def floors(tier):
-    return {"points_checked": 400, "points_generic": 200, "points_passed_as_non_contiguous_view": 300, "points_within_1e-7_of_a_cosine_zero": 20, "points_checked_after_solver_runs": 250, "solver_runs_on_exported_functions": 20, "__nontrivial__": 40}
+    return {"points_checked": 400, "points_generic": 200, "points_passed_as_non_contiguous_view": 300, "points_checked_right_after_a_call_with_an_integer_array": 500, "solver_runs_with_gradient_scaler": 8, "points_within_1e-7_of_a_cosine_zero": 20, "points_checked_after_solver_runs": 250, "solver_runs_on_exported_functions": 20, "__nontrivial__": 40}
 
 
 def cases(tier, seed):
@@ -62,8 +62,13 @@ def run_after_solver(spec, out):
     old = np.seterr(all="ignore")
     try:
         try:
+            extra = {}
+            if spec["seed"] % 2 == 1:
+                fac = float(np.exp(rng.uniform(np.log(0.05), np.log(20.0))))
+                extra["gradient_scaler"] = lambda xx, gg, a, b: fac  # the solver multiplies the gradients it was handed by this factor
+                out.count("solver_runs_with_gradient_scaler")
             res = lbfgsb.minimize_lbfgsb(x0=x0, fun=fun, jac=g, bounds=np.column_stack([lb, ub]), maxls=int(spec["maxls"]), maxiter=40,
-                                         maxcor=int(spec["maxcor"]), ftol=0.0, gtol=1e-9)
+                                         maxcor=int(spec["maxcor"]), ftol=0.0, gtol=1e-9, **extra)
             out.count("solver_runs_on_exported_functions")
             if "LNSRCH" in str(res.message):
                 out.count("solver_runs_ending_in_failed_line_search")
@@ -155,6 +160,33 @@ def run(spec):
         if name == "griewank" and np.any(np.abs(np.cos(x / np.sqrt(np.arange(1, n + 1)))) < 1e-7):
             out.count("points_within_1e-7_of_a_cosine_zero")
         pts.append(x)
+    if spec["kind"] == "lattice" and pts:
+        # a call that may fail (an integer array is not what every exported function accepts) comes right before the judged call at the
+        # same point given as floats; before that, another point was evaluated. What the failed call leaves behind must not show.
+        for x in pts:
+            xi = np.round(x).astype(int)
+            try:
+                f(np.asarray(xi + 1, dtype=float))
+                g(np.asarray(xi + 1, dtype=float))
+            except Exception:
+                pass
+            for fn in (f, g):
+                try:
+                    fn(xi)
+                except Exception:
+                    out.count("calls_with_an_integer_array_that_raised")
+            xf = xi.astype(float)
+            if name == "ackley" and np.linalg.norm(xf) < 0.5:
+                continue
+            if name == "griewank" and np.any(np.cos(xf / np.sqrt(np.arange(1, n + 1))) == 0.0):
+                continue
+            check_point(f, g, xf, out, name)
+            out.count("points_checked")
+            out.count("points_checked_right_after_a_call_with_an_integer_array")
+            if out.violations:
+                out.key = f"{name}/{n}/{spec['seed']}/{spec['kind']}"
+                out.sample = dict(spec=spec, last_point=xf)
+                return out
     answers = None
     layout = ("contiguous", "column_of_a_matrix", "every_second_element", "reversed_view")[(spec["seed"] // 2) % 4]
     if not reuse and pts and layout != "contiguous":
